@@ -22,8 +22,13 @@ structure Cal where
 def baseTime : Int := 946684800000
 def millisPerDay : Int := 86400000
 
-/-- `DateTimeHelper.getDateUnit` (for `t ≥ baseTime`, where Go's truncating division is floor) -/
-def unit (t : Int) : Int := (t - baseTime) / 86400000
+/-- `DateTimeHelper.getDateUnit`: Go's `/` on int64 truncates toward zero (`Int.tdiv`), also for
+    instants before 2000-01-01 -/
+def unit (t : Int) : Int := (t - baseTime).tdiv 86400000
+
+theorem unit_of_nonneg (t : Int) (h : baseTime ≤ t) : unit t = (t - baseTime) / 86400000 := by
+  unfold unit
+  exact Int.tdiv_eq_ediv_of_nonneg (by omega)
 
 def isDigit (b : Nat) : Bool := 48 ≤ b && b ≤ 57
 
